@@ -222,7 +222,11 @@ class ModeBasis(object):
             The coefficients that correspond to the vector `b`.
         '''
         if self.is_sparse or dampening_factor != 0:
-            x, istop, itn, normr, normar, norma, conda, normx = scipy.sparse.linalg.lsmr(self._transformation_matrix, b, damp=dampening_factor)
+            # The defaults of lsmr (atol = btol = 1e-6, at most min(m, n) iterations) stop long before
+            # the least-squares solution is reached; iterate to (near) working precision instead.
+            maxiter = 10 * self._transformation_matrix.shape[-1] + 100
+            x, istop, itn, normr, normar, norma, conda, normx = scipy.sparse.linalg.lsmr(
+                self._transformation_matrix, b, damp=dampening_factor, atol=1e-13, btol=1e-13, maxiter=maxiter)
             return x
         else:
             x, residuals, rank, s = np.linalg.lstsq(self._transformation_matrix, b)
